@@ -389,7 +389,7 @@ def run(chk: Check):
         "remembered for replay (the unchanged code's outcome, taken as the specification's); such a response is not lost",
     ]
     if chk.tier == "quick":
-        _b1(chk, dict(MaxEv=4, MaxInj=2, MaxDown=1, Batches="1,2,3,4,5,6,7,8,9,10,11", Depth=7), "ev4-d7", 8000)
+        _b1(chk, dict(MaxEv=4, MaxInj=2, MaxDown=1, Batches="1,2,3,4,5,6,7,8,9,10,11", Depth=7), "ev4-d7", 6000)
     else:
         _b1(chk, dict(MaxEv=5, MaxInj=2, MaxDown=1, Batches="1,2,3,4,5,6,7,8,9,10,11", Depth=9), "ev5-d9", 60000)
     chk.cov["exhaustive"] = True
